@@ -37,8 +37,14 @@ package fasthttp
 //@   on recv concurrencyCh:
 //@     requires[releases-only-a-held-slot] held == 1
 //@     effect held = held - 1
+//@   ghost bounded bool = false
+//@   on call context.WithDeadline(_, dl) -> cx, cancel:
+//@     nohavoc
+//@     requires[dial-context-ends-at-the-callers-deadline] dl == deadline
+//@     effect bounded = true
 //@   on call net.Dialer.DialContext -> cn, e:
 //@     requires[dials-only-with-a-slot] concurrencyCh == nil || held == 1
+//@     requires[dial-is-bounded-by-the-callers-deadline] bounded
 //@     effect dialed = dialed + 1
 //@   end
 //@   ensures[slot-returned] held == 0
